@@ -305,6 +305,19 @@ def streams(pid, tier, seed):
     elif pid == "C20":
         for cfg in ("u", "n", "uh", "nh"):
             add("mixed_" + cfg, mixed_stream(seed, 12000 if q else 250000, multi=True)[0], cfg)
+    # nested calls: stretches during which a callback resets the parser, registers / unregisters a callback or changes the user
+    # data from INSIDE the call; compared with the nested-call model (RdsModel/Reentrant.lean, `mstepH`). The monitors are
+    # not evaluated on these streams (their abstract machine has no nested calls); a divergence in the property's projection
+    # is reported with the shrunk op sequence.
+    n = 12000 if q else 200000
+    base = {"C01": lambda: mixed_stream(seed + 11, n, ext=False)[0], "C03": lambda: mixed_stream(seed + 11, n)[0],
+            "C04": lambda: rt_stream(seed + 11, n), "C08": lambda: rt_stream(seed + 12, n),
+            "C09": lambda: ext_stream(seed + 11, n), "C10": lambda: ext_stream(seed + 12, n), "C11": lambda: ext_stream(seed + 13, n),
+            "C13": lambda: mixed_stream(seed + 12, n)[0], "C15": lambda: mixed_stream(seed + 13, n)[0],
+            "C02": lambda: text_stream(seed + 11, n), "C06": lambda: text_stream(seed + 12, n), "C07": lambda: text_stream(seed + 13, n, few_cells=True, toggles=True),
+            "C16": lambda: text_stream(seed + 14, n, toggles=True), "C19": lambda: mixed_stream(seed + 14, n, multi=True)[0]}.get(pid)
+    if base is not None:
+        S.append(("reent", "u", gen.reentrant(base(), seed)))
     return S
 
 # ------------------------------------------------------------------------------------------
@@ -337,6 +350,13 @@ def twin_specs(pid, tier, seed):
         # "since the last reset" also when the reset is made from inside a callback (extended check on)
         for j in range(12): T.append(("c09re_%d" % j, twins.twin_reentrant_clear(j, 1, seed * 100 + j), "u", "u"))
     return T
+
+# projections for the nested-call streams (`reent`): no monitor is evaluated there, so every property that has such a stream
+# names the components of the trace it speaks about
+ALLC = r"^(S\..*|A|T\d\..*|E\d+)$"
+RPI = {"C01": r"^(S\.(pi|pty|tp|ta|ms)|E[0-4])$", "C02": r"^T\d\.cells$", "C03": ALLC, "C04": r"^E\d+$", "C06": r"^T\d\.cells$",
+       "C07": r"^T\d\.cells$", "C08": r"^(T[12]\..*|E9)$", "C09": r"^(S\..*|A|E[0-7])$", "C10": r"^(A|E7)$",
+       "C11": r"^(S\.ecc|S\.country|E5|E6)$", "C13": r"^(S\..*|A|T\d\..*)$", "C15": r"^E\d+$", "C16": r"^T\d\.(len|av|term)$", "C19": ALLC}
 
 # ------------------------------------------------------------------------------------------
 # known findings
@@ -422,6 +442,8 @@ def evaluate_stream(ctx, res):
             ctx.notes.append("stream %s: harness exit %d (reported under C05)" % (name, res.harness_rc))
     # 2. the property's own monitor on the implementation trace (model-independent)
     mons = [m for m in rep["mon"] if m["prop"] == pid]
+    if name.startswith("reent"):
+        mons = []          # nested-call streams: correspondence with `mstepH` only
     if mons:
         ctx.cov["monitor_failures"] += len(mons)
         m = mons[0]
@@ -432,6 +454,9 @@ def evaluate_stream(ctx, res):
         ctx.add_violation(path, "monitor %s fails at op %d of stream %s" % (pid, m["op"], name))
         return
     # 3. correspondence on the projection
+    saved_pi = ctx.pi
+    if name.startswith("reent"):
+        ctx.pi = re.compile(RPI.get(pid, NONE))
     d, desync = first_pi_divergence(ctx, rep)
     if d is not None:
         ctx.cov["divergences_in_projection"] += 1
@@ -443,7 +468,9 @@ def evaluate_stream(ctx, res):
                                    header + ["kind=correspondence: model and implementation disagree on component %s (projection of %s); %s" % (comp, pid, d["detail"][:400]),
                                              "no monitor predicate of %s fails on this input: no-failing-input-found" % pid], small)
         ctx.add_violation(path, "correspondence broken on %s at op %d (%s)" % (comp, d["op"], name), nofail=True)
+        ctx.pi = saved_pi
         return
+    ctx.pi = saved_pi
     if desync is not None:
         ctx.cov["desync_skipped"] += 1
     if rep["err"] and not (aborted and pid != "C05"):
@@ -826,7 +853,9 @@ def replay(pid, path):
         rep = runner.check_stream(res)
         print("--- model vs implementation / monitors %s ---" % tag)
         print(res.report_text[-4000:])
-        if any(m["prop"] == pid for m in rep["mon"]) or res.harness_rc != 0 or any(re.search(PROPS[pid]["pi"], d["comp"]) for d in rep["div"]):
+        nested = any("stream=reent" in h for h in hdr)
+        proj = RPI.get(pid, NONE) if nested else PROPS[pid]["pi"]
+        if (not nested and any(m["prop"] == pid for m in rep["mon"])) or res.harness_rc != 0 or any(re.search(proj, d["comp"]) for d in rep["div"]):
             rc_all = 1
     shutil.rmtree(wd, ignore_errors=True)
     print("replay verdict:", "property %s FAILS on this input" % pid if rc_all else "no failure of %s on this input" % pid)
